@@ -79,7 +79,7 @@ def _client_ops(client, ops, model, what, state):
         return ('stop', e.value)
       except (ValueError, KeyError, TypeError, RuntimeError) as e:
         return ('exc', type(e).__name__, str(e))
-    if k == 'eval':
+    if k in ('eval', 'eval_async'):
       e = op[1]
       saved = dict(targets.CALLS)
       try:
@@ -90,7 +90,11 @@ def _client_ops(client, ops, model, what, state):
       targets.CALLS.update(saved)
       if isinstance(want[1], c17.Handle):
         continue
-      got = answer(lambda: client.get_result(c17.build(e)))
+      if k == 'eval_async':
+        import asyncio  # pylint: disable=g-import-not-at-top
+        got = answer(lambda: asyncio.run(client.async_get_result(c17.build(e))))
+      else:
+        got = answer(lambda: client.get_result(c17.build(e)))
       if want[0] == 'exc' and want[1] == 'TimeoutError':
         # a TimeoutError raised by the expression itself is an application error like any other: same type and message
         exc_seen += 1
@@ -309,6 +313,7 @@ def strat(tier):
       expr = st.one_of(c17._int(3), c17._list(2), raising.map(lambda r: {'k': 'call', 'fn': 'counted_add', 'args': [{'c': 1}, r]}), raising)  # pylint: disable=protected-access
       op = st.one_of(
           st.tuples(st.just('eval'), expr).map(list), st.tuples(st.just('eval'), expr).map(list),
+          st.tuples(st.just('eval_async'), expr).map(list),
           st.tuples(st.just('remote_obj'), st.integers(0, 5)).map(list),
           st.tuples(st.just('eval_arr'), st.sampled_from([[1, 2, 3], [4, 5]]), st.integers(0, 1)).map(list),
           st.tuples(st.just('ro_call'), st.integers(0, 3), st.integers(1, 3)).map(list),
